@@ -112,6 +112,10 @@ let () =
             BMeta (List.init nh (fun _ -> let wgt = nf () in let n = ni () in
               (wgt, List.init n (fun _ -> let i = ni () in let c = nf () in let sg = nf () in (nat_of_int i, (c, sg))))))
           | "abmd" -> let k = nf () in let dec = nb () in let i = ni () in let rf = nf () in BAbmd (k, dec, nat_of_int i, rf)
+          | "hist" -> let k = nf () in let nrm = nf () in let sg = nf () in let ng = ni () in
+            let grid = List.init ng (fun _ -> let xg = nf () in let rg = nf () in (xg, rg)) in
+            let nv = ni () in let vs = List.init nv (fun _ -> nat_of_int (ni ())) in
+            BHist (k, nrm, sg, grid, vs)
           | s -> failwith ("bias " ^ s) in
         (try
           let na = ni () in
